@@ -217,15 +217,22 @@ def shard(ctx, payload):
             keys = sorted(set(keys))
             args = []
             for k in keys:
+                # the legal spelling first, then its case / spacing / suffix / zero variants whether they are codes or
+                # not (a non-code must be refused by both sides, also right after its legal twin was normalised)
                 args.append((k,))
                 args.append((k.lower(),))
+                args.append((k.upper(),))
+                args.append((k.swapcase(),))
                 args.append((' ' + k + ' ',))
                 for _ in range(60 if thorough else 20):
                     kind, v = variants.variant(k, rng.randrange)
-                    if v != k and v.isascii() and codes.PAT_EVENT_CODE.match(v.strip()):
+                    if v != k and v.isascii():
                         args.append((v,))
+                args.append((k,))
             args += [('nonsense',), ('',), ('100m',), ('HJ1',)]
-            run_batch('norm', sorted(set(args)), lambda a: a[0] not in keys)
+            seen = set()
+            ordered = [a for a in args if not (a in seen or seen.add(a))] + [(k,) for k in keys]
+            run_batch('norm', ordered, lambda a: a[0] not in keys)
         elif what == 'tyrving':
             _, g, ev = payload
             params = junior.tyrving_tables()[g][ev]
